@@ -40,7 +40,8 @@ def run(ck):
     cnt = [0]
 
     def solo(args):
-        n, out, pre = args
+        n, out, pre = args[:3]
+        amb = args[3] if len(args) > 3 else 0
         cnt[0] += 1
         w = os.path.join(ck.workdir, 'a%d' % (cnt[0] % 4096))
         shutil.rmtree(w, ignore_errors=True)
@@ -49,7 +50,7 @@ def run(ck):
         open(os.path.join(w, 'snoopy.ini'), 'w').write('[snoopy]\nmessage_format = %%{env:M}\ndatasource_message_max_length = 1048575\nlog_message_max_length = 1048575\noutput = %s\n' % ('file:' + target if out == 'file' else 'devnull'))
         if pre is not None and out == 'file':
             open(target, 'wb').write(pre)
-        rep = X.run(sx, w, [v['h_one'], os.path.join(w, 'snoopy.ini'), os.path.join(w, 'res.json'), '0', '1', '-', str(n)], env=dict(CLEAN_ENV), timeout=60)
+        rep = X.run(sx, w, [v['h_one'], os.path.join(w, 'snoopy.ini'), os.path.join(w, 'res.json'), '0', '1', '-', str(n)], env=dict(CLEAN_ENV, VERIF_AMBIENT_ERRNO=str(amb)), timeout=60)
         after = open(target, 'rb').read() if out == 'file' and os.path.exists(target) else None
         calls = rep.get('calls', [])
         fds = []
@@ -68,6 +69,11 @@ def run(ck):
                     writes.append(c)
                 if c['name'] == 'close':
                     fds.remove(c['a'][0])
+        # closes that hit nothing (second half of a double close: in a threaded caller the number may already belong to someone else), and
+        # a log descriptor still open when the real exec is reached
+        rep['bad_closes'] = [c['a'][0] for c in calls if c['name'] == 'close' and isinstance(c.get('ret'), int) and c['ret'] < 0]
+        rep['left_open'] = list(fds)
+        rep['ambient_errno'] = amb
         shutil.rmtree(w, ignore_errors=True)
         return n, out, pre, opens, writes, tuple(pattern), after, rep
     evals = 0
@@ -82,6 +88,11 @@ def run(ck):
             jobs.append((n, 'file', p))
     for n in (1, 4095, 4096, 8193, 70000):
         jobs.append((n, 'devnull', None))
+    # the caller's ambient errno (left by ITS earlier system calls) must not change how the record is appended
+    for amb in (4, 11, 28, 32):
+        for n in (1, 4096, 70000):
+            jobs.append((n, 'file', None, amb))
+            jobs.append((n, 'file', pres[0], amb))
     for n, out, pre, opens, writes, pattern, after, rep in pmap(solo, jobs):
         evals += 1
         bad = []
@@ -97,6 +108,10 @@ def run(ck):
                 bad.append('opened_with_O_TRUNC')
             if fl & O_NONBLOCK:
                 bad.append('opened_non_blocking')     # on a tty or FIFO destination a non-blocking append may be cut short: not one indivisible append
+        if rep.get('bad_closes'):
+            bad.append('closed_a_descriptor_that_was_not_open')
+        if rep.get('left_open'):
+            bad.append('log_descriptor_still_open_at_exec')
         if len(writes) != 1:
             bad.append('record_leaves_in_%d_writes' % len(writes))
         elif writes[0].get('buf_len') != n + 1 or not writes[0].get('buf_ends_nl'):
@@ -109,7 +124,7 @@ def run(ck):
         outcomes.add((out, pattern, pre is not None, tuple(bad)))
         if bad:
             # signature groups sizes by their call pattern, not by the individual size
-            ck.violation('C17:%s:output=%s:pattern=%s' % ('+'.join(bad), out, '>'.join(pattern)), {'record_size': n, 'output': out, 'pre_existing': None if pre is None else len(pre), 'pattern': pattern, 'failed': bad,
+            ck.violation('C17:%s:output=%s:pattern=%s%s' % ('+'.join(bad), out, '>'.join(pattern), (':ambient_errno=%d' % rep['ambient_errno']) if rep.get('ambient_errno') else ''), {'record_size': n, 'ambient_errno': rep.get('ambient_errno'), 'output': out, 'pre_existing': None if pre is None else len(pre), 'pattern': pattern, 'failed': bad,
                          'writes': [(w_.get('buf_len'), w_.get('buf_ends_nl')) for w_ in writes]})
     for (out, pat), ns in patterns.items():
         samples.append({'output': out, 'pattern': '>'.join(pat), 'sizes': '%d..%d (%d sizes)' % (min(ns), max(ns), len(ns))})
